@@ -76,7 +76,7 @@ JFv(r) ==
       spec == InstantiateFvs(font, nlims)
   IN IF \E q \in 1..Len(got.fvs) : Len(got.fvs[q].box) # Len(NKept(nlims)) THEN "FvShape"
      ELSE IF bad # {} THEN (IF FvDeviation(font.fvs, nlims) THEN "FeatureVars:applied-record-without-remaining-conditions" ELSE "FeatureVars")
-     ELSE IF spec # got THEN "note:fv-transcription-differs"
+     ELSE IF spec # got THEN (IF InstantiateFvsIdeal(font, nlims) = got THEN "note:fv-as-ideal-not-as-transcribed" ELSE "note:fv-transcription-differs")
      ELSE "ok"
 
 (* ======================================================================================== *)
